@@ -80,6 +80,23 @@ def gen(ctx):
                             rule=rng.choice(["nks:%d" % rng.getrandbits(2 ** (2 * r + 1)), "hash:2:3:%d:0" % rng.randint(0, 1)]),
                             T=rng.randint(2, 5), memo=rng.choice(MEMOS)))
         yield dict(kind="seq", seq=seq)
+    for _ in range(ctx.n(80, 800)):
+        # one rule OBJECT reused across calls (a cache attached to the callable / its parameters would leak):
+        # dtypes of different item size, different radii and ring sizes, same and different states
+        rule = rng.choice(["nks:30", "nks:110", "hash:2:3:1:0", "hash:3:2:1:0", "total:2:11"])
+        k = 3 if rule.startswith("hash:3") else 2
+        seq = []
+        for _ in range(rng.randint(2, 5)):
+            N = rng.choice([4, 5, 8, 8, 9, 16])
+            r = 1 if rule.startswith("nks") else rng.choice([1, 1, 2])
+            st = rng.choice([[1] * N, [i % 2 for i in range(N)], [0] * (N - 1) + [1], state(rng, N, k, 0)])
+            seq.append(dict(kind="ev1", hist=[st], dtype=rng.choice(["int64", "int32", "int8", "int32", "float64"]), scale=1,
+                            r=r, rule=rule, T=rng.randint(2, 4), memo=rng.choice(MEMOS)))
+            if seq[-1]["dtype"] == "float64":
+                seq[-1]["scale"] = 4
+                seq[-1]["hist"] = [[4 * x for x in st]]
+                seq[-1]["rule"] = rule
+        yield dict(kind="seq", seq=seq, shared_rule=1)
     for _ in range(ctx.n(40, 300)):
         c = rand_case(rng)
         c["memo"] = rng.choice(["bad:Recursive", "bad:None", "bad:2", "bad:x", "bad:recursive ", "bad:memo"])
@@ -95,12 +112,44 @@ def line(c):
 
 def impl(c):
     if c["kind"] == "seq":
+        if c.get("shared_rule"):
+            from .. import fmt
+            return "|".join(fmt.err(r.exc) if r.exc is not None else "ok rows=" + fmt.mat(ev1.scaled_rows(r.res, x))
+                            for x, r in zip(c["seq"], run_shared(c["seq"])))
         return "|".join(ev1.strip_calls(ev1.answer(x, ev1.run_impl(x))) for x in c["seq"])
     return ev1.strip_calls(ev1.answer(c, ev1.run_impl(c)))
 
 
 def compare(c, a, b):
     return ev1.strip_calls(a) == ev1.strip_calls(b)
+
+
+class SharedRule:
+    """One callable object reused for every call of a sequence; the scale is switched per call."""
+
+    def __init__(self, spec):
+        from ..dsl import Rule
+        self.inner = Rule(spec, 1)
+
+    def __call__(self, n, c, t):
+        return self.inner(n, c, t)
+
+
+def run_shared(seq):
+    import cellpylib as cpl
+    shared = SharedRule(seq[0]["rule"])
+    runs = []
+    for x in seq:
+        shared.inner.scale = x.get("scale", 1)
+        ca = ev1.make_ca(x)
+        out = ev1.Run()
+        out.exc, out.res = None, None
+        try:
+            out.res = cpl.evolve(ca, timesteps=x["T"], apply_rule=shared, r=x["r"], memoize=ev1.memo_value(x["memo"]))
+        except Exception as e:  # noqa
+            out.exc = e
+        runs.append(out)
+    return runs
 
 
 def _one(x):
@@ -126,7 +175,10 @@ def _one(x):
 def oracle(c):
     if c["kind"] == "seq":
         # run the whole sequence back to back, then compare each with its isolated unmemoized run
-        runs = [ev1.run_impl(x) for x in c["seq"]]
+        if c.get("shared_rule"):
+            runs = run_shared(c["seq"])
+        else:
+            runs = [ev1.run_impl(x) for x in c["seq"]]
         for i, (x, m) in enumerate(zip(c["seq"], runs)):
             p = ev1.run_impl(x, memo="False")
             if m.exc is not None:
